@@ -402,7 +402,9 @@ class NETReader:
         """
         # Defining an expression for valid word
         word_expr = Word(alphanums + "_" + "-")("nodename")
-        name_expr = Suppress("node ") + word_expr + Optional(Suppress("{"))
+        # A declaration is `node <name> {`: without the brace, a variable whose name ends in
+        # "node" would turn the parent list `potential (x | anode y)` into a declaration of y.
+        name_expr = Suppress("node ") + word_expr + Suppress("{")
 
         word_expr2 = Word(initChars=printables, excludeChars=["(", ")", ",", " "])
         state_expr = ZeroOrMore(word_expr2 + Optional(Suppress(",")))
